@@ -269,6 +269,7 @@ class Fn:
         self.div_sites = []
         self.pending_checks = []
         self.unchecked_divs = []
+        self.guards = []
         self.join_depth = 0
         self.let_bound = set()
         self.pending = []
@@ -419,11 +420,17 @@ class Fn:
         if isinstance(node, ast.BoolOp):
             op = " && " if isinstance(node.op, ast.And) else " || "
             parts = [self.cond(node.values[0], env)]
-            self.no_raise += 1
-            try:
-                parts += [self.cond(v, env) for v in node.values[1:]]
-            finally:
-                self.no_raise -= 1
+            for v in node.values[1:]:
+                # a later operand is only evaluated when the earlier ones were all true (`and`) / all false (`or`): the guard under
+                # which a division inside it is reached (division-safety mode)
+                g = "(" + " && ".join(parts if isinstance(node.op, ast.And) else [f"(!{x})" for x in parts]) + ")"
+                self.no_raise += 1
+                self.guards.append(g)
+                try:
+                    parts.append(self.cond(v, env))
+                finally:
+                    self.guards.pop()
+                    self.no_raise -= 1
             return ("(" + op.join(parts) + ")", "Bool")
         if isinstance(node, ast.UnaryOp):
             if isinstance(node.op, ast.Not):
@@ -509,14 +516,23 @@ class Fn:
                 src = f"(List.filter (fun {v} => " + " && ".join(conds) + f") {par(it)})"
             return (f"(List.map (fun {v} => {xe}) {par(src)})", "List:" + xt)
         if isinstance(node, ast.IfExp):
+            c_ = self.cond(node.test, env)
             self.no_raise += 1
             try:
-                a, ta = self.expr(node.body, env)
-                b, tb = self.expr(node.orelse, env)
+                self.guards.append(c_)
+                try:
+                    a, ta = self.expr(node.body, env)
+                finally:
+                    self.guards.pop()
+                self.guards.append(f"(!{c_})")
+                try:
+                    b, tb = self.expr(node.orelse, env)
+                finally:
+                    self.guards.pop()
             finally:
                 self.no_raise -= 1
             a, b, t = self.unify(a, ta, b, tb)
-            return (f"(if {self.cond(node.test, env)} then {a} else {b})", t)
+            return (f"(if {c_} then {a} else {b})", t)
         if isinstance(node, ast.Tuple):
             parts = [self.expr(x, env) for x in node.elts]
             return ("(" + ", ".join(p[0] for p in parts) + ")", "Tuple:" + ",".join(p[1] for p in parts))
@@ -1816,10 +1832,10 @@ class Fn:
             return
         if tb == "Lit":
             return
-        if self.no_raise > 0:
-            self.unchecked_divs.append(b_node_text)
+        if self.no_raise > len(self.guards):
+            self.unchecked_divs.append(b_node_text)      # inside an expression whose evaluation condition is not tracked
             return
-        self.pending_checks.append(zero_test)
+        self.pending_checks.append("(" + " && ".join(self.guards + [zero_test]) + ")" if self.guards else zero_test)
 
     def none_value(self):
         """how an exception of a called function leaves the current function: `none` for Option targets; for `Except` targets the
@@ -2024,9 +2040,21 @@ class Fn:
                     env2[n] = (proj, t)
             else:
                 env2[s.target.id] = (xv, elt)
+            cmark_ = len(self.pending_checks)
             c = self.cond(s.body[0].test, env2)
+            cmark2_ = len(self.pending_checks)
             r = s.body[0].body[0]
             e, t = self.expr(r.value, env2)
+            if len(self.pending_checks) > cmark_:
+                # division-safety mode: a division in the test of a search loop is checked for every element of the list (more than
+                # Python evaluates - the elements after the first hit - hence conservative); one in the returned expression for
+                # every element that satisfies the test
+                in_test, in_result = self.pending_checks[cmark_:cmark2_], self.pending_checks[cmark2_:]
+                del self.pending_checks[cmark_:]
+                for test_ in in_test:
+                    self.pending_checks.append(f"(List.any {par(it)} (fun {xv} => {test_}))")
+                for test_ in in_result:
+                    self.pending_checks.append(f"(List.any {par(it)} (fun {xv} => ({c} && {test_})))")
             return (f"{pad}firstHit {par(it)} (fun {xv} => {c}) (fun {xv} => {self.wrap_ret(self.ret(e, t))}) (\n"
                     + nxt(env, ind + 1) + ")")
         # general loop: structurally recursive auxiliary definition over the list; loop-carried variables =
